@@ -68,6 +68,7 @@ package health
 
 //@ func determineStatus
 //@   property C07 C20
+//@   safety
 //@   replay health_determinestatus : statusCode ; latency ; err ; errorType
 //@   ensures err != nil && (errorType == 1 || errorType == 2 || errorType == 4) ==> res == "offline"
 //@   ensures err != nil && !(errorType == 1 || errorType == 2 || errorType == 4) ==> res == "unhealthy"
@@ -78,6 +79,7 @@ package health
 
 //@ func classifyError
 //@   property C07 C20
+//@   safety
 //@   ensures errorsIs(err, ErrCircuitBreakerOpen) ==> res == 4
 //@   ensures !errorsIs(err, ErrCircuitBreakerOpen) && errorsAs(err, "net.Error") ==> (purecall("(net.Error).Timeout", "bool", errorsAsVal(err, "net.Error")) ==> res == 2) && (!purecall("(net.Error).Timeout", "bool", errorsAsVal(err, "net.Error")) ==> res == 1)
 //@   ensures !errorsIs(err, ErrCircuitBreakerOpen) && !errorsAs(err, "net.Error") && errorsIs(err, context.DeadlineExceeded) ==> res == 2
@@ -95,8 +97,10 @@ package health
 //@ ghost var chkCount int
 //@ ghost var doCount int
 
+// (net/http's client contract: a nil error comes with a non-nil response)
 //@ interface HTTPClient.Do
 //@   records doCount = old(doCount) + 1
+//@   ensures res1 == nil ==> res0 != nil
 
 //@ func calculateBackoffDelay
 //@   property C07
@@ -114,6 +118,7 @@ package health
 
 //@ func (hc *HealthClient) performSingleCheck
 //@   property C07 C20
+//@   safety
 //@   requires hc != nil && endpoint != nil
 //@   modifies gvar doCount
 //@   ensures doCount <= old(doCount) + 1 && doCount >= old(doCount)
@@ -124,7 +129,8 @@ package health
 //@   ensures res0.Status == "healthy" ==> res1 == nil && res0.StatusCode >= 200 && res0.StatusCode < 300
 
 //@ func (hc *HealthClient) Check
-//@   property C07 C08
+//@   property C07 C08 C20
+//@   safety
 //@   requires hc != nil && endpoint != nil && hc.circuitBreaker != nil
 //@   modifies hc.circuitBreaker.endpoints[all], circuitState.failures, circuitState.lastFailure, circuitState.lastAttempt, circuitState.isOpen, gvar doCount
 //@   records chkStatus = result.Status
